@@ -23,8 +23,8 @@ def z_matrix():
 def h_matrix():
     return sympy.Matrix(
         [
-            [(1 / np.sqrt(2)), (1 / np.sqrt(2))],
-            [(1 / np.sqrt(2)), (-1 / np.sqrt(2))],
+            [float(1 / np.sqrt(2)), float(1 / np.sqrt(2))],
+            [float(1 / np.sqrt(2)), float(-1 / np.sqrt(2))],
         ]
     )
 
